@@ -1110,8 +1110,9 @@ class Run:
         self.faults['badconfig'] += 1
         if len(self.stacks[fr.ctx]) > 1:
             self.probe('badconfig_inside_block')
-        if raised != 'TypeError':
-            self.violate(fr, 'N', {'site': 'badconfig', 'raised': raised})
+        # which exception an unknown setting raises (the current tree: TypeError from dataclasses.replace),
+        # or whether it raises at all, is not C19's business; that nothing changes is
+        self.probe('badconfig_raised:' + str(raised))
         self.expect(fr, 'N', obs, self.top(fr), {'what': 'a failed Config(...) changed the active configuration'})
 
     def do_construct(self, fr: Frame, stmt: list) -> None:
